@@ -4,7 +4,7 @@
 //    colvar::add_bias_force_actual_value (what a bias that bypasses the extended coordinate does);
 //  * `xstep`: one engine step, then ONE line with everything the extended-Lagrangian code reports
 //    for the first variable, read from the object in hex.
-// Commands added: xnew | cvf <name> <f_ext> <f_actual> | running 0|1 | xstep (nothing else changes).
+// Commands added: xnew | cvf <name> <f_ext> <f_actual> | running 0|1 | xstep | biastable (nothing else changes).
 #include <cstdio>
 #include <cstdlib>
 #include <cstring>
@@ -88,6 +88,14 @@ struct c17_session : public vsim_session {
     }
     if (cmd == "running") {
       proxy->b_simulation_running = atoi(a[0].c_str()) != 0;
+      return true;
+    }
+    if (cmd == "biastable") {
+      // for every bias already defined: type, whether it CAN bypass the extended coordinate and whether it DOES
+      for (colvarbias *b : proxy->colvars->biases) {
+        o << "BT " << b->bias_type << " " << (b->is_available(colvardeps::f_cvb_bypass_ext_lagrangian) ? 1 : 0)
+          << " " << (b->is_enabled(colvardeps::f_cvb_bypass_ext_lagrangian) ? 1 : 0) << "\n";
+      }
       return true;
     }
     if (cmd == "xstep") {
